@@ -87,7 +87,7 @@ check("C22", "E2 enum", "exploration",
 
 check("C23", "E2 enum", "exploration",
       "bounded-exhaustive enumeration of 8 range kinds x bound families x probes and of 11 iterable kinds x element lists (len <=3, thorough <=5) x 27 operations x arguments against a Go slice model",
-      "Range contains/iteration in 5 forms for Int, Float, word-straddling Int, Char and fixed-width bounds; every list over {1,2,3,-1} as ArrayList, tuple, set, map, record, iterators, generator and closed channel x the 27 Std::Iterable operations with n in {-1,0,1,2,5}, 4 predicates, 4 probes; results must equal the same operation on the Go slice (multisets for hash collections) and undocumented edge cases must equal ArrayList's behaviour.",
+      "Range contains/iteration in 5 forms for Int, Float, Int bounds around the small/big switch (2^63-2, 2^63-1, 2^63+1), Char and fixed-width bounds; every list over {1,2,3,-1} as ArrayList, tuple, set, map, record, iterators, generator and closed channel x the 27 Std::Iterable operations with n in {-1,0,1,2,5}, 4 predicates, 4 probes; results must equal the same operation on the Go slice (multisets for hash collections) and undocumented edge cases must equal ArrayList's behaviour.",
       "Float-range iteration and halves on Int ranges are rejected by the checker and not probed")
 
 check("C02", "E2 enum", "exploration",
@@ -97,13 +97,13 @@ check("C02", "E2 enum", "exploration",
 
 check("C12", "E2 enum", "exploration",
       "bounded-exhaustive metamorphic enumeration: every single application of 4 meaning-preserving edit kinds at every position of 132 (thorough 227) base programs",
-      "For each accepted base program (22 leaf method shapes x 5 caller shapes x top-level shapes, 1-4 methods) every insertion of an unused local / closure local before every statement, every consistent renaming of a local, every redundant parenthesisation of an expression node and every permutation of the method definitions is checked and run; verdict, stdout and uncaught error must equal the base program's.",
-      "single-expression closures only; nothing is inserted after the last statement of a body; no classes/modules")
+      "For each accepted base program (22 leaf method shapes x 5 caller shapes x top-level shapes, 1-4 methods) every insertion of an unused local / closure local (plain closures and closures with a throw annotation) before every statement, every consistent renaming of a local, every redundant parenthesisation of an expression node and every permutation of the method definitions is checked and run; verdict, stdout and uncaught error must equal the base program's.",
+      "single-expression closures only (with and without a throw annotation); nothing is inserted after the last statement of a body; no classes/modules")
 
 check("C13", "E2 enum", "exploration",
-      "bounded-exhaustive enumeration of closure terms (<=3 variables, nesting <=3, 6-8 statements) against a reference interpreter with boxed variables, each also under stack growth",
+      "bounded-exhaustive enumeration of closure terms (<=3 variables, nesting <=3, 6-8 statements) against a reference interpreter with boxed variables, each also under stack growth; plus a differential loop-exit family (6 labelled loop kinds x 6 exits, unrelated locals after vs before the loop)",
       "All well-formed closure terms up to the size bound (6 049 programs quick, 81 255 thorough) over declare/write/read, closure creation in top-level code, methods, loops and closures, escape by return, list storage, passing to a method and tail call, are printed to Elk, run on the VM with the default stack and with a 64-slot initial stack plus deep-recursion hooks (growth while closures are live; in child processes) and compared line by line with harness/mini's reference interpreter.",
-      "closures without parameters; while/numeric-for loop variables and cross-thread closures are outside the space; a closure-free growth canary gates the growth mode (exhaustive:false if it fails)")
+      "closures without parameters; cross-thread closures are outside the space; while/numeric-for loop variables only in the loop-exit family; a closure-free growth canary gates the growth mode (exhaustive:false if it fails)")
 
 check("C14", "E2 enum", "exploration",
       "bounded-exhaustive enumeration of control-flow nestings (depth 3, thorough 4) x exit kinds and of short-circuit expressions against a reference interpreter",
@@ -121,8 +121,8 @@ check("C24", "E3 bfs", "model_checking",
       "capacity growth policy not modelled beyond capacity >= length; boxes, map, map_mut not covered")
 
 check("C30", "E2 enum", "exploration",
-      "bounded-exhaustive enumeration of patterns (depth 2, thorough depth-3 spines) x 45 scrutinee values x contexts x static typings against a reference matcher sourced from the compiler/checker",
-      "About 65 depth-1 patterns and 47 composite shapes filled from a child pool, in switch (alone, behind never-matching cases, with catch-all), if-match, match, var/val destructuring, under static type any and 12-16 precise types, all ordered pairs of 24 patterns and triples of 12, and 15 exhaustive switches: the selected case and every bound variable must equal the reference matcher's (rules cited from compiler pattern(), the checker and header docs); unspecified outcomes are only compared differentially.",
+      "bounded-exhaustive enumeration of patterns (depth 2, thorough depth-3 spines) x 48 scrutinee values x contexts x static typings against a reference matcher sourced from the compiler/checker",
+      "About 65 depth-1 patterns, 47 composite shapes filled from a child pool and 144 list patterns with sibling nested list patterns after a leading rest element, in switch (alone, behind never-matching cases, with catch-all), if-match, match, var/val destructuring, under static type any and 12-16 precise types, all ordered pairs of 24 patterns and triples of 12, and 15 exhaustive switches: the selected case and every bound variable must equal the reference matcher's (rules cited from compiler pattern(), the checker and header docs); unspecified outcomes are only compared differentially.",
       "guards do not exist in the grammar; identifier patterns naming existing variables, === / =~ patterns, catch/for patterns are outside the space")
 
 check("C31", "E2 enum", "exploration",
@@ -142,7 +142,7 @@ check("C28", "E2 enum", "exploration",
 
 check("C32", "E2 enum", "exploration",
       "bounded-exhaustive enumeration of call chains (depth <=3, thorough 4) over 7 frame kinds x filler-line vectors x construct contexts, comparing the uncaught error's stack trace with the known chain",
-      "Every chain over {method, instance method, module method, closure, closure passed to a native iterator, generator, async function} with an uncaught throw at the leaf, 0-2 filler statements before each call site and the throw, call sites inside if/while/do-finally/do-catch/switch/continuation lines, two throw forms: the frames of the program file in thread.ErrStackTrace() must be exactly the chain, outermost first, with matching method names and call-site / throw lines.",
+      "Every chain over {method, instance method, module method, closure, closure passed to a native iterator, generator, async function} with an uncaught throw at the leaf, 0-2 filler statements before each call site and the throw (plus one all-wide vector: 135 extra statements per frame so that 16-bit instruction forms are used, calls spread over two lines), call sites inside if/while/do-finally/do-catch/switch/continuation lines, two throw forms: the frames of the program file in thread.ErrStackTrace() must be exactly the chain, outermost first, with matching method names and call-site / throw lines.",
       "native frame labels and closure/top-level names are not asserted; tail-position calls are never generated")
 
 check("C34", "E2 enum", "exploration",
